@@ -21,7 +21,7 @@ def live_order(built):
     return [rev[id(e)] for e in built.net.elements]
 
 
-def arg_groups(desc, order, vals, fixed=()):
+def arg_groups(desc, order, vals, fixed=(), scaled=None):
     """fixed: (element id, variable) pairs that were supplied as numbers to the symbolic step: they are
     not arguments of the function."""
     lay = var_layout(desc)
@@ -34,15 +34,19 @@ def arg_groups(desc, order, vals, fixed=()):
                     continue
                 v = vals[eid][name]
                 v = list(v) if isinstance(v, list) else [v]
+                if scaled and (eid, name) in scaled:
+                    # the step was given  a + b * symbol : the function's argument is the symbol
+                    a_, b_ = scaled[(eid, name)]
+                    v = [(x - a_) / b_ for x in v]
                 groups[grp].append((eid, name, v))
                 byname[grp].setdefault(name, []).extend(v)
     return groups, byname
 
 
-def build_args(desc, order, vals, compact, params=None, fixed=()):
+def build_args(desc, order, vals, compact, params=None, fixed=(), scaled=None):
     import casadi as cs
 
-    groups, byname = arg_groups(desc, order, vals, fixed)
+    groups, byname = arg_groups(desc, order, vals, fixed, scaled)
     G3 = ("states", "actions", "disturbances")
     if compact <= 0:
         args = [cs.DM(v) for grp in G3 for _, _, v in groups[grp]]
@@ -64,9 +68,9 @@ def build_args(desc, order, vals, compact, params=None, fixed=()):
     return args, names, groups, byname
 
 
-def call_positional(F, desc, order, vals, compact, more_out=False, params=None, fixed=()):
+def call_positional(F, desc, order, vals, compact, more_out=False, params=None, fixed=(), scaled=None):
     """Returns (x_next {id:{name:list}}, q {link:list} | None, q_o {origin:float} | None)."""
-    args, names, groups, byname = build_args(desc, order, vals, compact, params, fixed)
+    args, names, groups, byname = build_args(desc, order, vals, compact, params, fixed, scaled)
     out = F(*args)
     out = list(out) if isinstance(out, (list, tuple)) else [out]
     out = [np.asarray(o, dtype=float).ravel().tolist() for o in out]
